@@ -156,6 +156,18 @@ def guard_rules(ck, prog):
     V.require(ck, "G", "VerifierChannel::new:fri-layer-count", m,
               "reject iff the proof's number of FRI layers differs from the number implied by the options and the LDE domain size "
               "(the FRI verifier removes one commitment per expected layer: Vec::remove(0) panics on a shorter list)", loc_hint=vc.loc())
+    # (1b) the Lagrange kernel out-of-domain frame has log2(trace_length) + 1 evaluations and is present exactly when the AIR has a Lagrange
+    # kernel column: evaluate_numerators indexes the log2(n) Lagrange random elements by the frame's length, the DEEP composer slices
+    # xs[2..], evaluate_constraints expects the Lagrange coefficients
+    m = [g for g in gs if g.kind == "switch" and
+         V.match_cmp(g, ("!=",), V.has_callee("lagrange_kernel_frame"), V.all_of(V.has_callee("has_lagrange_kernel_aux_column"), V.has_callee_deep("ilog2", "trace_length", "trailing_zeros")))]
+    V.require(ck, "G", "VerifierChannel::new:lagrange-frame-size", m,
+              "reject iff the Lagrange kernel OOD frame is absent/present contrary to the AIR or does not have log2(trace_length) + 1 evaluations",
+              loc_hint=vc.loc())
+    # (1c) a batch opening has one leaf per position: surplus rows of query values otherwise pass the opening check unauthenticated and reach
+    # assert_eq!(queried_evaluations.num_rows(), x_coordinates.len()) in the DEEP composer
+    from . import c10
+    c10.opening_fully_used(ck, prog, None, "G")
     # (2) a proof component whose presence the proof controls is never unwrapped
     pv = prog.fn("winter_verifier::perform_verification")
     g = flow(pv)
